@@ -28,7 +28,8 @@ theorem facts_ok :
       Facts.C16.foldMoveSheet && Facts.C16.renameSourceExact && Facts.C16.renameClashCheck &&
       Facts.C16.deleteKeepsVisible && Facts.C16.hideCountsVisibleOthers &&
       Facts.C16.moveRenumbersLocalSheetId && Facts.C16.deleteAdjustsDefinedNames &&
-      Facts.C16.copyTargetByPartPath) = true := by
+      Facts.C16.copyTargetByPartPath && Facts.C16.newSheetSkipsExistingParts &&
+      Facts.C16.definedNameScopeResolved) = true ∧ Facts.C16.workbookScopeName = "Workbook" := by
   decide
 
 /-! ## invariants over any history (clauses "names stay unique case-insensitively and valid",
@@ -133,15 +134,17 @@ theorem then_independent (ops : List Op) (n : Name) (v : Nat) (s' : St)
 /-! ## the sheet list after each call is what the ordered-list model says -/
 
 /-- NewSheet: nothing changes when the name exists (case-insensitively), otherwise one visible
-sheet with a fresh id is appended; active tab and defined names are untouched -/
+sheet with a fresh id (larger than every listed id, and past every existing part) is appended;
+active tab and defined names are untouched -/
 theorem list_new (s s' : St) (n : Name) (r : Option Nat) (h : newSheet s n = .ok (s', r)) :
     s' = s ∨ (checkSheetName n = .ok () ∧ (∀ sh ∈ s.sheets, fold sh.name ≠ fold n) ∧
       s'.activeTab = s.activeTab ∧ s'.defs = s.defs ∧ s'.count = s.count + 1 ∧
-      ∃ rid, s'.sheets = s.sheets ++ [⟨n, maxOf (s.sheets.map (·.id)) + 1, rid, Vis.visible⟩]) := by
+      maxOf (s.sheets.map (·.id)) < newSheetID s ∧
+      ∃ rid, s'.sheets = s.sheets ++ [⟨n, newSheetID s, rid, Vis.visible⟩]) := by
   rcases newSheet_core s s' n r h with h | ⟨hv, hf, rid, hc⟩
   · exact Or.inl h
   · simp only [core, Core.mk.injEq] at hc
-    exact Or.inr ⟨(validName_iff n).mp hv, hf, hc.2.1, hc.2.2.2, hc.1, rid, hc.2.2.1⟩
+    exact Or.inr ⟨(validName_iff n).mp hv, hf, hc.2.1, hc.2.2.2, hc.1, newSheetID_gt s, rid, hc.2.2.1⟩
 
 /-- DeleteSheet: either nothing changes, or exactly the named sheet leaves the list (order of the
 others kept), another visible sheet exists, and the new active tab is inside the list -/
